@@ -44,7 +44,7 @@ where
                     Ok((res, msg)) => {
                         self.reader.consume(res);
                         self.bytes_processed += res;
-                        self.index += 1;
+                        self.index = self.index.wrapping_add(1); // (the last msg may carry u32::MAX)
                         self.detected_storage_header = true;
                         return Some(msg);
                     }
@@ -88,7 +88,7 @@ where
                         }
                         self.reader.consume(res);
                         self.bytes_processed += res;
-                        self.index += 1;
+                        self.index = self.index.wrapping_add(1); // (the last msg may carry u32::MAX)
                         self.detected_serial_header = true;
                         return Some(msg);
                     }
